@@ -86,6 +86,10 @@ func resolveTypeText(pkg *types.Package, t string) types.Type {
 	case "error":
 		return types.Universe.Lookup("error").Type()
 	}
+	if o, ok := types.Universe.Lookup(t).(*types.TypeName); ok {
+		// the remaining predeclared types (byte, uint8, int32, ...)
+		return o.Type()
+	}
 	if i := strings.Index(t, "."); i >= 0 {
 		pn, tn := t[:i], t[i+1:]
 		for _, imp := range pkg.Imports() {
@@ -325,12 +329,12 @@ func (e *SpecEnv) Eval(x SExpr) SV {
 				if c, ok := p.(SCall); ok && c.Fn == "$multi" {
 					var ts []string
 					for _, a := range c.Args {
-						ts = append(ts, ne.Eval(a).Term)
+						ts = append(ts, patTerm(ne.Eval(a)))
 					}
 					ps = append(ps, "("+strings.Join(ts, " ")+")")
 					continue
 				}
-				ps = append(ps, "("+ne.Eval(p).Term+")")
+				ps = append(ps, "("+patTerm(ne.Eval(p))+")")
 			}
 			bt = fmt.Sprintf("(! %s :pattern %s)", bt, strings.Join(ps, " :pattern "))
 		}
@@ -338,6 +342,15 @@ func (e *SpecEnv) Eval(x SExpr) SV {
 	}
 	e.fail("cannot evaluate %s", x)
 	return SV{}
+}
+
+// patTerm: the term of a trigger expression; a struct location (s[i] of a struct-element slice, *p) is
+// represented by its reference (an empty :pattern () is rejected by cvc5 and ignored by z3).
+func patTerm(v SV) string {
+	if v.Term == "" && v.Loc != nil {
+		return v.Loc.Base
+	}
+	return v.Term
 }
 
 func (e *SpecEnv) constVal(c *types.Const) SV {
